@@ -363,8 +363,35 @@ def no_peeking(an, rep):
     from ..layers import primitive_unit
     unit = primitive_unit(core)
     n = 0
+    from ..callgraph import CallGraph
+    cg = CallGraph(core)
+    called = {e for es in cg.edges.values() for e in es}
+    called_by_derived = set()          # what the derive macro's output (the corpus crate) calls
+    for cr in an.corpus().crates:
+        for cb in cr.bodies.values():
+            for blk in cb.blocks:
+                t = blk["term"]
+                if t["k"] == "call":
+                    called_by_derived.add(mir.callee_info(t["callee"])["key"])
+    callers = {}
+    for d, es in cg.edges.items():
+        for e in es:
+            callers.setdefault(e, set()).add(d)
+    cand = {b.defn for b in core.bodies.values() if b.kind in ("Fn", "AssocFn") and not (b.impl and b.impl.get("trait"))
+            and not b.in_trait and b.key not in called_by_derived}
+    outside = {d for d in cand if d not in called}
+    grew = True
+    while grew:                        # ... or that is called only by such accessors
+        grew = False
+        for d in cand - outside:
+            if callers.get(d, set()) <= outside:
+                outside.add(d)
+                grew = True
     for b in sorted(core.bodies.values(), key=lambda b: b.key):
         ex = None
+        # an accessor that nothing in the library calls (a convenience for users: `remaining()`, `is_at_end()`) cannot make
+        # any decoder of the library depend on the remaining length; one that is called from anywhere can
+        uncalled = b.defn in outside
         for bb in sorted(mir.reachable(b)):
             blk = b.blocks[bb]
             if blk.get("cleanup"):
@@ -392,6 +419,9 @@ def no_peeking(an, rep):
                         hit = "current." + fld
                     if own == "desert_core::deserializer::DeserializationContext" and fld in ("input", "region_stack"):
                         hit = hit or ("context." + fld)
+            if hit and uncalled and b.defn not in unit:
+                R.count("reads in accessors nothing in the library or in derived code calls")
+                continue
             if hit:
                 n += 1
                 R.check(b.defn in unit, b.key, "reads " + hit, "reads the region bounds / raw input outside the "
